@@ -149,7 +149,7 @@ def main():
     res = {}
     for b in blocks:
         head = b.split("\n", 1)[0]
-        m = re.match(r"(?:seeded/)?(C\d+-(?:r[23])?m\d):\s*(.*)", head) or re.match(r"mut_(C\d+)\.out/(m\d):\s*(.*)", head) or re.match(r"mu2_(C\d+)\.out/(m\d):\s*(.*)", head)
+        m = re.match(r"(?:seeded/)?(C\d+-(?:r[234])?m\d):\s*(.*)", head) or re.match(r"mut_(C\d+)\.out/(m\d):\s*(.*)", head) or re.match(r"mu2_(C\d+)\.out/(m\d):\s*(.*)", head)
         if not m: continue
         mid = m.group(1) if "-" in m.group(1) else (f"{m.group(1)}-{m.group(2)}" if head.startswith("mut_") else f"{m.group(1)}-r2{m.group(2)}")
         r = res.setdefault(mid, {"checks": {}})
